@@ -512,6 +512,14 @@ def run(chk):
     chk.floor("K11-seqstamp", 2)
     chk.floor("K11-indexpos", 1)
     chk.floor("K1-contract", 4)
+    # "directory listings are strictly sorted": the writers emit the children lists of the tree as they are, so the tree
+    # keeps siblings in strcmp order whatever order the entries arrive in (pack file lines and archive members come in
+    # any order), and a lookup by name never takes a longer name for the one asked for (no two entries of one name)
+    from .c11 import rule_sorted_tree, rule_exact_lookup
+    rule_sorted_tree(chk, load_program("gensquashfs"))
+    rule_exact_lookup(chk, load_program("gensquashfs"))
+    chk.floor("K2-sorted", 1)
+    chk.floor("K2-exact", 1)
     from .c08 import rule_g_truncate, rule_i_every_block, rule_j_logged
     rule_g_truncate(chk, load_program("gensquashfs"))
     rule_i_every_block(chk, load_program("gensquashfs"))
